@@ -29,6 +29,13 @@ def _route():
         if "/vyxal/" in fn or ((fn.startswith("<vy") or fn == "<string>") and co.co_name != "<module>"):
             names.append(f"{fn.rsplit('/', 1)[-1]}:{co.co_name}")
         f = f.f_back
+    # Text that reaches Python evaluation through one of the statement's three named routes -- the evaluate element and
+    # input parsing (both helpers.vy_eval) or the call element (elements.function_call) -- is in scope whatever library
+    # finally evaluates it.  Only the sympy-parser string overloads of the ∆ elements (helpers.make_expression /
+    # make_equation, not reached through vy_eval) are outside the statement.
+    named_route = any(n.endswith((":vy_eval", ":function_call", ":exp2_or_eval", ":execute_vyxal")) for n in names)
+    if exempt and named_route:
+        exempt = False
     return ("ast-literal:" if literal else "") + ("sympy-parse:" if exempt else "") + (names[0] if names else "?")
 
 
